@@ -925,6 +925,11 @@ func runStake(r *Rec, prop string) {
 						e.ev = append(e.ev, evOp{v: v, age: age})
 						if age == 2 {
 							willLeave--
+						} else if r.Rng.Intn(3) == 0 {
+							// ... and an unjail proposal for it is enacted in the very block whose BeginBlock jails it: the
+							// validator still leaves the consensus set (jailed -> inactive)
+							mid = append(mid, stakeOp{"unjail", v})
+							r.Count("unjail:in-the-block-of-the-jailing")
 						}
 					case 3:
 						// one transaction [MsgPause, MsgUnpause]: leaves and re-enters within the block (allowed by C05.Good)
@@ -934,6 +939,10 @@ func runStake(r *Rec, prop string) {
 						txs = append(txs, stakeOp{"pause", v})
 					case 1:
 						mid = append(mid, stakeOp{"jail", v})
+						if r.Rng.Intn(3) == 0 {
+							mid = append(mid, stakeOp{"unjail", v})
+							r.Count("unjail:in-the-block-of-the-jailing")
+						}
 					case 2:
 						mid = append(mid, stakeOp{"kpause", v})
 					}
